@@ -47,11 +47,15 @@ type vrsStep struct {
 // vrsChain implements Chain[string, uint32] over a parent vector (block i+1 has parent par[i], 0 = none).
 type vrsChain struct{ par []int }
 
-func vrsName(b int) string { return fmt.Sprintf("b%d", b) }
+// Block hashes are strings whose SORT ORDER is a per-behaviour permutation of the block ids: the
+// vote graph keeps descendants sorted by hash, so which branch sorts first must vary.
+var vrsMul, vrsAdd = 1, 0
+
+func vrsName(b int) string { return fmt.Sprintf("%02d-b%d", (b*vrsMul+vrsAdd)%97, b) }
 
 func vrsIndex(h string) int {
-	var b int
-	if _, err := fmt.Sscanf(h, "b%d", &b); err != nil {
+	var k, b int
+	if _, err := fmt.Sscanf(h, "%d-b%d", &k, &b); err != nil {
 		return 0
 	}
 	return b
@@ -220,7 +224,9 @@ func TestVerifRoundState(t *testing.T) {
 		prefixLen = 5
 	}
 	orders := 0
+	muls := []int{1, 3, 5, 7, 11, 13, 17, 19, 23, 29, 31, 37, 41, 43, 47, 53, 59, 61, 67, 71, 73, 79, 83, 89}
 	for _, b := range behs {
+		vrsMul, vrsAdd = muls[(b.ID+int(vSeed()))%len(muls)], (b.ID*7+int(vSeed()))%97
 		var steps []vrsStep
 		for _, raw := range b.Steps {
 			var s vrsStep
